@@ -138,6 +138,9 @@ def run(ctx):
     roles = common.role_fields(ctx, lib, want=common.CLASS_ROLES)
     ctx.floor("ROLE", "class roles resolved to config fields", len([r for r in roles if r.startswith("class:")]), 6)
     cls4(ctx, lib)
+    from . import memo
+    memo.rules(ctx)
+    memo.check(ctx, lib)
     r = common.cls1(ctx, prog, lib, roles)
     if r is None:
         return
